@@ -120,8 +120,9 @@ contract('odml/base.py::Sectionable._check_no_cycle',
                         'implies(section is self or anc(self, section), '
                         'node is not None and (section is node or anc(node, section)))'},
          loop_var_types={'node': ('BaseSection', 'BaseDocument')},
+         decreases={0: 'depth(node)'},
          props=('C03',),
-         note='partial correctness; termination follows from depth(node) decreasing (I4.depth_def)')
+         note='total correctness: the parent-chain walk terminates because depth(node) decreases (I4.depth_def)')
 
 contract('odml/section.py::BaseSection.append',
          types={'self': 'BaseSection', 'obj': 'any'},
@@ -298,3 +299,29 @@ contract('odml/base.py::Sectionable._match_iterable',
          invariants={0: 'all(field(item(_it, j), "_name") != key for j in range(_i))'},
          result_types=('BaseSection', 'BaseProperty'),
          props=('C14',))
+
+
+# ---- C03 "consequently path, document and traversal queries always terminate" ----------------------
+contract('odml/base.py::Sectionable.document.getter',
+         types={'self': ('BaseSection', 'BaseDocument')}, pure=True,
+         requires='True',
+         ensures=['result is None or isDoc(result)',
+                  'implies(isDoc(self), result is self)',
+                  'implies(result is not None and not isDoc(self), anc(self, result))'],
+         raises={},
+         invariants={0: 'par is self or anc(self, par)'},
+         loop_var_types={'par': ('BaseSection', 'BaseDocument')},
+         decreases={0: 'depth(par)'},
+         props=('C03', 'C14'),
+         note='an object\'s document is the root of its parent chain; the walk terminates')
+
+contract('odml/base.py::Sectionable.get_path',
+         types={'self': ('BaseSection', 'BaseDocument')}, pure=True,
+         requires='True',
+         ensures=['is_str(result)', 'implies(isDoc(self), result == "/")'],
+         raises={},
+         invariants={0: 'node is self or anc(self, node)'},
+         loop_var_types={'node': ('BaseSection', 'BaseDocument')},
+         decreases={0: 'depth(node)'},
+         props=('C03', 'C14'),
+         note='the absolute path is computed by a terminating walk up the parent chain')
